@@ -50,7 +50,9 @@ func zzvC11Configs(thorough bool) map[string]*telemetry.UploadConfig {
 		return pc
 	}
 	p2 := &telemetry.ProgramConfig{Name: "cmd/go", Versions: []string{"go1.21.0"}, Counters: []telemetry.CounterConfig{{Name: "c", Rate: 1}}}
+	p2e := &telemetry.ProgramConfig{Name: "cmd/go", Versions: []string{"go1.21.0"}, Counters: []telemetry.CounterConfig{{Name: "e", Rate: 1}, {Name: "f:{x,y}", Rate: 1}}, Stacks: []telemetry.CounterConfig{{Name: "t", Rate: 1, Depth: 3}}}
 	out := map[string]*telemetry.UploadConfig{
+		"two-programs-different-counters": mk([]string{"linux"}, []string{"amd64"}, []string{"go1.21.0"}, p1([]string{"c", "d:{a,b}"}, []string{"s"}), p2e),
 		"basic":       mk([]string{"linux"}, []string{"amd64"}, []string{"go1.21.0"}, p1([]string{"c", "d:{a,b}"}, []string{"s"})),
 		"two-os":      mk([]string{"linux", "darwin"}, []string{"amd64", "arm64"}, []string{"go1.21.0", "go1.22.0"}, p1([]string{"c"}, []string{"s", "c"}), p2),
 		"no-stacks":   mk([]string{"linux"}, []string{"amd64"}, []string{"go1.21.0"}, p1([]string{"c:{a}", "s"}, nil)),
@@ -78,7 +80,7 @@ func zzvC11Builds() map[string]ref.Build {
 	}
 }
 
-var zzvC11Names = []string{"c", "c:a", "d:a", "d:c", "d", "zz", "s", "s\nmain.f:+1,+0x1", "t\nmain.f:+1,+0x1", "c\nmain.f:+1,+0x1", "s\nmain.g:+2,+0x2\nmain.f:+1,+0x1"}
+var zzvC11Names = []string{"c", "c:a", "d:a", "d:c", "d", "zz", "e", "f:x", "s", "s\nmain.f:+1,+0x1", "t\nmain.f:+1,+0x1", "c\nmain.f:+1,+0x1", "s\nmain.g:+2,+0x2\nmain.f:+1,+0x1"}
 
 func TestVerifC11View(t *testing.T) {
 	p := vrep.Env()
